@@ -6,7 +6,7 @@ for ONE running object.
 * `realIter e hp hn`          : `prev n` = what the first `prev_prime()` of a fresh `iterator(n, hp n)` returns,
                                 `next n` = the buffer the first `generate_next_primes()` of a fresh `iterator(n, hn n)` leaves.
 * `realIter_specTo`           : `IterSpecTo (realIter …) N` for every `N` with a prime in `[N, 2^64-1]` (under `GenSpec e`).
-* `BwdAt s p`, `prevPrime_step`, `prevCalls_init` : the k-th `prev_prime()` of ONE object started at `n` returns exactly what the
+* `BwdAt s p`, `prevPrime_stepAt`, `prevCalls_init` : the k-th `prev_prime()` of ONE object started at `n` returns exactly what the
                                 P2 model obtains by k queries `it.prev (prime - 1)` (in-buffer step + refill at the buffer front).
 * `BufChain`, `nextCalls_spec`: the k-th `generate_next_primes()` of ONE object continues the (k-1)-th buffer and satisfies the
                                 three `next_*` fields of the contract at position `last_{k-1} + 1`.
@@ -76,7 +76,7 @@ theorem realIter_specTo (e : Env) (he : GenSpec e) (hp hn : ℕ → ℕ) (hhn : 
   · exact ((realIter_next e he hp hn hhn n (by omega) (hex n h)).2 L hL).2 q
 
 /-- a prime above `2^63` below `2^64` exists (Bertrand): `N = 2^63` needs no primality certificate -/
-theorem exists_prime_two63 : ∃ p, p.Prime ∧ 2 ^ 63 ≤ p ∧ p ≤ umax := by
+theorem exists_prime_ge_two63 : ∃ p, p.Prime ∧ 2 ^ 63 ≤ p ∧ p ≤ umax := by
   obtain ⟨p, hp, h1, h2⟩ := Nat.exists_prime_lt_and_le_two_mul (2 ^ 63) (by norm_num)
   refine ⟨p, hp, by omega, ?_⟩
   have hne : p ≠ 2 ^ 64 := by
@@ -146,7 +146,7 @@ theorem bwdDone_last {s s' : St} {t : ℕ} (hd : BwdDone s s' t) (u : ℕ) (hLu 
     `primes_[--i_]` or the refill `generate_prev_primes()` at the buffer front, it returns the largest prime below the prime `p`
     returned last (0 when there is none) — i.e. exactly `it.prev (p - 1)` of the P2 abstraction — and the object is again in a
     state of this kind -/
-theorem prevPrime_step (e : Env) (he : GenSpec e) (s : St) (p : ℕ) (h : BwdAt s p) :
+theorem prevPrime_stepAt (e : Env) (he : GenSpec e) (s : St) (p : ℕ) (h : BwdAt s p) :
     ∃ s', prevPrime e s = .ok (Nat.findGreatest Nat.Prime (p - 1), s') ∧ BwdAt s' (Nat.findGreatest Nat.Prime (p - 1)) := by
   have hpmem : p ∈ s.buf := List.mem_of_getElem? h.cur
   by_cases hi : s.i = 0
@@ -266,7 +266,7 @@ theorem prevCalls_running (e : Env) (he : GenSpec e) (hp hn : ℕ → ℕ) :
   | zero => intro s p _ _; exact ⟨s, rfl⟩
   | succ k ih =>
     intro s p h hpu
-    obtain ⟨s1, h1, h2⟩ := prevPrime_step e he s p h
+    obtain ⟨s1, h1, h2⟩ := prevPrime_stepAt e he s p h
     have hle := Nat.findGreatest_le (P := Nat.Prime) (p - 1)
     obtain ⟨s2, h3⟩ := ih s1 _ h2 (by omega)
     refine ⟨s2, ?_⟩
